@@ -185,8 +185,16 @@ func dispatchCmd(args []string) int {
 								for _, bb := range g.Blocks {
 									for _, in2 := range bb.Instrs {
 										if c2, ok := in2.(ssa.CallInstruction); ok {
-											if sc := c2.Common().StaticCallee(); sc != nil && sc.Pkg != l.RT {
-												walk(sc)
+											if sc := c2.Common().StaticCallee(); sc != nil {
+												if sc.Pkg != l.RT {
+													walk(sc)
+												}
+											} else if cs, err := st.ResolveCallee(c2, true); err == nil {
+												// a wrapper of an interface method (I.M$bound, I.M$thunk) invokes: resolve the
+												// inner call the way the dataflow analysis does
+												for c := range cs {
+													walk(c)
+												}
 											}
 										}
 									}
